@@ -15,6 +15,8 @@ CONSTANTS
   EvictingLookup = FALSE
   HonourContext = TRUE
   RejectSeenIds = FALSE
+  RegisterBeforeExistsCheck = FALSE
+  MaxDup = 0
   Emit = FALSE
   Only = "all"
 INIT Init
